@@ -54,7 +54,11 @@ func FuzzRegisterMatch(f *testing.F) {
 		inGrammar := validMs
 		for i, p := range []string{p1, p2} {
 			accepted := try(func() { r.AddNamed(model.RouteDef{Idx: i}.Name(), p, noop, ms...) }) == nil
-			ast, ok := model.Parse(p)
+			// registration normalises the pattern text like any path (C11); the model parses the normal form
+			ast, ok := model.Parse(model.Normalize(p, o.Strict))
+			if !model.Stable(p, o.Strict) {
+				ok = false
+			}
 			if ok && (ast.TrailSlash && !o.Strict) {
 				ok = false
 			}
@@ -65,7 +69,7 @@ func FuzzRegisterMatch(f *testing.F) {
 				if !accepted {
 					t.Fatalf("pattern %q of the documented grammar rejected (methods %q)", p, ms)
 				}
-				if ast.IsStatic() && len(tb.Routes) == 1 && model.Normalize(tb.Routes[0].P.String(), o.Strict) == model.Normalize(p, o.Strict) {
+				if ast.IsStatic() && len(tb.Routes) == 1 && model.Normalize(tb.Routes[0].P.String(), o.Strict) == ast.String() {
 					inGrammar = false // duplicate static route: outside C01's quantifier
 				}
 				tb.Routes = append(tb.Routes, model.RouteDef{P: ast, Methods: ms, Idx: i})
